@@ -22,6 +22,22 @@ func init() {
 			"refreshLookup($r0, $tokenReq.RefreshToken)", "refreshClientAuthed($r1)", "true(op.ValidateGrantType($r1, oidc.GrantTypeRefreshToken))",
 			"eq($r1.GetID(), $r0.GetClientID())", "scopesNarrowed($tokenReq.Scopes, $r0)", `neq($tokenReq.RefreshToken, "")`,
 		})
+	// needsRefreshToken is an internal helper: its meaning is stated as two predicates over the request kinds, so that its
+	// callers can be held to them whether the helper exists, was renamed or was merged into createTokens
+	const off = "member(oidc.ScopeOfflineAccess, $q.GetScopes())"
+	const refreshGrant = "true(op.ValidateGrantType($client, oidc.GrantTypeRefreshToken))"
+	needs := &Guar{Prop: "C07", Fn: "op.needsRefreshToken", P: []string{"tokenRequest", "client"},
+		Facts: []string{"needsRT($tokenRequest, $client)"},
+		Proof: []string{"is($tokenRequest, RefreshTokenRequest) || (is($tokenRequest, TokenExchangeRequest) && eq($q.GetRequestedTokenType(), oidc.RefreshTokenType))" +
+			" || (is($tokenRequest, AuthRequest) && " + off + " && eq($q.GetResponseType(), oidc.ResponseTypeCode) && " + refreshGrant + ")" +
+			" || (is($tokenRequest, *DeviceAuthorizationState) && " + off + " && " + refreshGrant + ")"},
+		FailFacts: []string{"noRT($tokenRequest, $client)"},
+		FailProof: []string{
+			// a refresh request always rotates; a token exchange gets a refresh token exactly when it asks for one (earlier cases of the type switch win)
+			"notis($tokenRequest, RefreshTokenRequest) || is($tokenRequest, AuthRequest) || is($tokenRequest, TokenExchangeRequest)",
+			"notis($tokenRequest, TokenExchangeRequest) || is($tokenRequest, AuthRequest) || neq($q.GetRequestedTokenType(), oidc.RefreshTokenType)",
+		}}
+	allGuars = append(allGuars, needs)
 	obs := []Ob{
 		{ID: "E1.refresh.provider", Fn: "op.RefreshTokenExchange", Kind: "call", Pat: `op.CreateTokenResponse(_, $req, $client, _, true, "", $tokenReq.RefreshToken)`, Max: 1,
 			Why: "new tokens only for the authenticated client the refresh token belongs to, registered for the grant, with narrowed scopes; the presented token is handed on for rotation",
@@ -50,17 +66,14 @@ func init() {
 		{ID: "E8.refresh.rotation.storage", Fn: "op.createTokens", P: []string{"ctx", "tokenRequest", "storage", "refreshToken", "client"}, Kind: "call",
 			Pat: "$storage.CreateAccessAndRefreshTokens(_, $tokenRequest, $refreshToken)", Max: 1,
 			Why: "access and refresh tokens are created together exactly when the request calls for a refresh token",
-			Req: []string{"true(op.needsRefreshToken($tokenRequest, $client)) || is($tokenRequest, RefreshTokenRequest)"}},
+			Req: []string{"needsRT($tokenRequest, $client)"}},
 		{ID: "E8.refresh.rotation.no-plain-token-for-refresh", Fn: "op.createTokens", P: []string{"ctx", "tokenRequest", "storage", "refreshToken", "client"}, Kind: "call",
 			Pat: "$storage.CreateAccessToken(_, $tokenRequest)", Max: 1,
 			Why: "a refresh request never takes the access-token-only path (the presented refresh token would not be rotated)",
-			Req: []string{"false(op.needsRefreshToken($tokenRequest, $client)) || notis($tokenRequest, RefreshTokenRequest)"}},
+			Req: []string{"noRT($tokenRequest, $client)"}},
 		{ID: "E8.refresh.rotation.response", Fn: "op.CreateTokenResponse", P: []string{"ctx", "request", "client", "creator", "createAccessToken", "code", "refreshToken"}, Kind: "ret ok",
 			Pat: "ret(&AccessTokenResponse{RefreshToken: $new, AccessToken: $at}, nil)", Max: 1,
 			Req: []string{"false($createAccessToken) || def($new, op.CreateAccessToken(_, $request, _, $creator, $client, $refreshToken), 1)"}},
-		{ID: "E7.refresh.needs-refresh-token", Fn: "op.needsRefreshToken", P: []string{"tokenRequest", "client"}, Kind: "ret fail",
-			Why: "a refresh request always rotates: the answer is never `no` for a RefreshTokenRequest (earlier cases of the type switch take precedence)",
-			Req: []string{"notis($tokenRequest, RefreshTokenRequest) || is($tokenRequest, AuthRequest) || is($tokenRequest, TokenExchangeRequest)"}},
 	}
 	register(&PropSpec{
 		ID: "C07",
